@@ -426,7 +426,15 @@ func RunChild(sc *Scenario) *Result {
 					c.launch(l.mod, l.w)
 				}
 			}
-			if !c.waitBegan(ids, 20*time.Second) {
+			// a task body that returns before the queue handler's watcher goroutine runs stalls the task queue for the
+			// 1-minute execution wait (known t.ctx race, allowed by the wording of C07): give tasks time for two such stalls
+			bound := 20 * time.Second
+			for _, id := range ids {
+				if k := c.workByID[id].Kind; k == "task" || k == "schedtask" {
+					bound = 140 * time.Second
+				}
+			}
+			if !c.waitBegan(ids, bound) {
 				c.rec(Event{Kind: "launch-incomplete"})
 			} else {
 				c.rec(Event{Kind: "launched", Info: fmt.Sprintf("%d items", len(ids))})
@@ -499,7 +507,7 @@ func RunChild(sc *Scenario) *Result {
 					if t := c.tasks[w.ID]; t != nil {
 						before := atomic.LoadInt32(c.beganN[w.ID])
 						t.Queue()
-						deadline := time.Now().Add(20 * time.Second)
+						deadline := time.Now().Add(140 * time.Second) // see "launch": two execution-wait limits
 						for atomic.LoadInt32(c.beganN[w.ID]) == before && time.Now().Before(deadline) {
 							time.Sleep(200 * time.Microsecond)
 						}
